@@ -70,19 +70,20 @@ type ssMObj struct { // -1: not observable
 }
 
 type ssMTrace struct {
-	Acts    []string `json:"a"`           // actions in processing order (without the sweep)
-	Impl    []string `json:"i"`           // status class the implementation showed, per action
-	Grp     []int    `json:"g"`           // actions with the same number belong to one burst
-	Issued  []string `json:"h,omitempty"` // handle string of every O action, in order
-	Objs    []ssMObj `json:"o,omitempty"` // one per O action: the object behind the handle
-	PCtx    []int    `json:"p,omitempty"` // rs: per N action, context of the failed handler call cancelled (1/0); nil: not observable
-	Z       int      `json:"z"`
-	PreN    int      `json:"pn"`            // table size just before the connection was ended (-1: not sampled)
-	Pre     []string `json:"pre,omitempty"` // os: the issued handle strings found in the table then
-	PreSet  bool     `json:"ps,omitempty"`  // Pre is meaningful
-	PostN   int      `json:"qn"`            // rs: table size after Serve returned (-1: not compared)
-	Dropped int      `json:"d,omitempty"`   // requests the driver has no action for (INIT and path requests)
-	Skip    string   `json:"s,omitempty"`   // the session cannot be compared: why
+	Acts      []string `json:"a"`           // actions in processing order (without the sweep)
+	Impl      []string `json:"i"`           // status class the implementation showed, per action
+	Grp       []int    `json:"g"`           // actions with the same number belong to one burst
+	Issued    []string `json:"h,omitempty"` // handle string of every O action, in order
+	Objs      []ssMObj `json:"o,omitempty"` // one per O action: the object behind the handle
+	PCtx      []int    `json:"p,omitempty"` // rs: per N action, context of the failed handler call cancelled (1/0); nil: not observable
+	Z         int      `json:"z"`
+	PreN      int      `json:"pn"`            // table size just before the connection was ended (-1: not sampled)
+	Pre       []string `json:"pre,omitempty"` // os: the issued handle strings found in the table then
+	PreSet    bool     `json:"ps,omitempty"`  // Pre is meaningful
+	PostN     int      `json:"qn"`            // rs: table size after Serve returned (-1: not compared)
+	Dropped   int      `json:"d,omitempty"`   // requests the driver has no action for (INIT and path requests)
+	RODropped int      `json:"rd,omitempty"`  // … of these: WRITE / FSETSTAT refused by a ReadOnly() server
+	Skip      string   `json:"s,omitempty"`   // the session cannot be compared: why
 }
 
 type ssMSnap struct {
@@ -254,6 +255,13 @@ func (m *ssMRec) record(i int, q ssReq, hk string, live bool, reps []wire.Pkt, p
 			m.skip("illegal-open-reply")
 		}
 	case "close", "read", "write", "fstat", "fsetstat", "readdir":
+		if m.s.cfg.RO && !rsKind && ssModifies(q) {
+			// ReadOnly(): WRITE and FSETSTAT are refused before the handle table is consulted — like the path
+			// requests they are no action of the handle-table model (the direct oracles judge the refusal)
+			m.t.Dropped++
+			m.t.RODropped++
+			return
+		}
 		if live && ssMismatch(q.Kind, hk) {
 			m.skip("request-does-not-fit-handle-kind") // the driver has one `use` action: found => called
 		}
@@ -355,6 +363,14 @@ func (m *ssMRec) finish(end ssEnd, extra []wire.Pkt) *ssMTrace {
 			if o.Kind == "lister" {
 				mo.TE = -1 // Request.transferError only tells readers and writers; a ListerAt has no TransferError
 			}
+			// an object without the optional method cannot show what the model counts (ssCfg.Without):
+			// not observable, not compared; the rest of the session is
+			if !o.HasClose {
+				mo.Closed = -1
+			}
+			if !o.HasTE {
+				mo.TE = -1
+			}
 			m.t.Objs = append(m.t.Objs, mo)
 		}
 		nN := 0
@@ -445,11 +461,40 @@ func (m *ssModelCmp) add(j *ssPJob, res *ssResult) {
 		m.c.R.Hist("model/skip/" + res.Model.Skip)
 		return
 	}
+	if why := ssModelInexpressible(j.Cfg); why != "" {
+		m.c.R.Hist("model/skip/configuration/" + why)
+		return
+	}
+	if res.Model.RODropped > 0 {
+		m.c.R.Hist("model/compared-without/readonly-refused-handle-requests")
+	}
+	for _, o := range res.Model.Objs {
+		if o.Closed < 0 && o.Kind != "file" && o.Kind != "?" {
+			m.c.R.Hist("model/compared-without/closed-count-of-objects-without-Close")
+			break
+		}
+	}
 	m.pend = append(m.pend, ssMItem{j, res.Model, res.ServeErr})
 	if len(m.pend) >= m.batch {
 		m.ch <- m.pend
 		m.pend = nil
 	}
+}
+
+// ssModelInexpressible names the reason why sessions of this configuration cannot be replayed in the
+// handle-table model at all ("" = they can).  Such sessions are skipped for the model comparison only —
+// every direct oracle still judges them — and counted under model/skip/configuration/<reason>.
+//
+// What the new configuration dimensions need: ReadOnly(), WithDebug, start / working directories and
+// the handler-interface variants lstat / posixrename / statvfs do not change the handle table; objects
+// without Close / TransferError make single fields unobservable (compared without them); without
+// OpenFileWriter a read-write open yields a write handle (READ on it "does not fit": the existing
+// per-session skip).  Only the package's own InMemHandler gives no object view at all.
+func ssModelInexpressible(cfg ssCfg) string {
+	if cfg.Kind == "rs" && cfg.InMem {
+		return "inmem-handler-without-object-counters"
+	}
+	return ""
 }
 
 // close flushes, waits for the driver and writes the outcome into the result.
